@@ -14,7 +14,7 @@ from .. import codec as C
 from .. import sym
 from .. import frameops as FO
 from ..flow import subst, ctor_kwargs
-from .common import unparse, call_name, strip_calls
+from .common import as_dict, unparse, call_name, strip_calls
 
 QUA = "reamber.quaver"
 QUAMAP = f"{QUA}.QuaMap.QuaMap"
@@ -384,8 +384,8 @@ def item_tables(ctx, slot: str):
     for n in walk_no_nested(w.node):
         if isinstance(n, ast.Return) and n.value is not None:
             kw = ctor_kwargs(n.value) if isinstance(n.value, ast.Call) else None
-            if isinstance(n.value, ast.Dict):
-                kw = {C.const_str(k): v for k, v in zip(n.value.keys, n.value.values)}
+            if as_dict(n.value) is not None:
+                kw = {C.const_str(k): v for k, v in zip(as_dict(n.value).keys, as_dict(n.value).values)}
             for k, e in (kw or {}).items():
                 ty = call_name(e) if isinstance(e, ast.Call) and call_name(e) in ("int", "float") else None
                 wt[k] = (e, ty)
@@ -420,11 +420,11 @@ def rule_r1(ctx) -> List[R.Inst]:
                                else "?" + unparse(n.value)[:40])
                 rt[C.const_str(g.args[0])] = (C.self_attr(n.targets[0]), ops, g, n)
     wt = {}
-    ret = [n for n in walk_no_nested(wr.node) if isinstance(n, ast.Return) and isinstance(n.value, ast.Dict)]
+    ret = [n for n in walk_no_nested(wr.node) if isinstance(n, ast.Return) and as_dict(n.value) is not None]
     if len(ret) != 1:
         return [R.undec(rid, "meta-writer", file, wr.node.lineno, "_write_meta does not return one dict literal")]
     dup = []
-    for k, v in zip(ret[0].value.keys, ret[0].value.values):
+    for k, v in zip(as_dict(ret[0].value).keys, as_dict(ret[0].value).values):
         ks = C.const_str(k)
         if ks in wt:
             dup.append(ks)
@@ -742,8 +742,8 @@ def rule_r5(ctx) -> List[R.Inst]:
             slots = {C.self_attr(x.func.value) for x in ast.walk(n.value) if isinstance(x, ast.Call) and call_name(x) == "to_yaml"}
             written[C.const_str(n.targets[0].slice)] = (slots, n)
         # ... or as entries of the dict display the document is built as: {**meta, "TimingPoints": ..., ...}
-        if isinstance(n, ast.Dict):
-            for k_, v_ in zip(n.keys, n.values):
+        if as_dict(n) is not None:
+            for k_, v_ in zip(as_dict(n).keys, as_dict(n).values):
                 if k_ is not None and C.const_str(k_) is not None:
                     slots = {C.self_attr(x.func.value) for x in ast.walk(v_) if isinstance(x, ast.Call) and call_name(x) == "to_yaml"}
                     if slots:
